@@ -8,6 +8,7 @@ import (
 	"reflect"
 	"strings"
 
+	"golang.org/x/tools/go/cfg"
 	"golang.org/x/tools/go/packages"
 	"golang.org/x/tools/go/types/typeutil"
 )
@@ -40,7 +41,7 @@ func CalleeName(info *types.Info, call *ast.CallExpr) string {
 	o := typeutil.Callee(info, call)
 	switch f := o.(type) {
 	case *types.Func:
-		return f.FullName()
+		return RecordedFullName(f)
 	case *types.Builtin:
 		return "builtin." + f.Name()
 	}
@@ -236,7 +237,11 @@ func Implementers(pkg *types.Package, iface *types.Interface) []*types.Named {
 // `x.items[0]` all print as `‹*popSet›.items[0]`; `locs[0].Span[2]` and (with
 // `l := locs[0]`) `l.Span[2]` both print as `‹*Location›.Span[2]`. Renaming a
 // local or introducing an alias therefore does not change the key.
-func NormExpr(info *types.Info, e ast.Expr) string {
+func NormExpr(info *types.Info, e ast.Expr) string { return NormExprSubst(info, e, nil) }
+
+// NormExprSubst is NormExpr with some local variables (parameters of a helper)
+// printed as the given text (the normalised argument of a call site).
+func NormExprSubst(info *types.Info, e ast.Expr, subst map[types.Object]string) string {
 	short := func(t types.Type) string {
 		if t == nil {
 			return "?"
@@ -279,8 +284,14 @@ func NormExpr(info *types.Info, e ast.Expr) string {
 		case nil:
 			return ""
 		case *ast.Ident:
+			if s, ok := subst[info.Uses[x]]; ok && info.Uses[x] != nil {
+				return s
+			}
 			if isLocal(x) {
 				return short(info.TypeOf(x))
+			}
+			if fn, ok := info.Uses[x].(*types.Func); ok {
+				return RecordedName(fn)
 			}
 			return x.Name
 		case *ast.ParenExpr:
@@ -294,6 +305,9 @@ func NormExpr(info *types.Info, e ast.Expr) string {
 		case *ast.SelectorExpr:
 			if sel := info.Selections[x]; sel != nil && sel.Kind() == types.FieldVal && isPath(x.X) {
 				return short(info.TypeOf(x.X)) + "." + x.Sel.Name
+			}
+			if fn, ok := info.Uses[x.Sel].(*types.Func); ok {
+				return norm(x.X) + "." + RecordedName(fn)
 			}
 			return norm(x.X) + "." + x.Sel.Name
 		case *ast.IndexExpr:
@@ -319,4 +333,71 @@ func NormExpr(info *types.Info, e ast.Expr) string {
 		return types.ExprString(e)
 	}
 	return norm(e)
+}
+
+// BlockCond returns the condition a two-successor block of a go/cfg graph
+// branches on (Succs[0] is the true edge), or nil. For a tagged switch go/cfg
+// records only the case expression ("one half of tag == e"); the comparison is
+// rebuilt here so that callers see the same shape as for an if statement. The
+// synthetic node carries no type information of its own; its operands do.
+func BlockCond(b *cfg.Block) ast.Expr {
+	if len(b.Succs) != 2 || len(b.Nodes) == 0 {
+		return nil
+	}
+	cond, _ := b.Nodes[len(b.Nodes)-1].(ast.Expr)
+	if cond == nil {
+		return nil
+	}
+	body := b.Succs[0]
+	if body.Kind != cfg.KindSwitchCaseBody {
+		return cond
+	}
+	cc, _ := body.Stmt.(*ast.CaseClause)
+	if cc == nil {
+		return cond
+	}
+	isCase := false
+	for _, e := range cc.List {
+		if e == cond {
+			isCase = true
+		}
+	}
+	if !isCase {
+		return cond
+	}
+	sw := switchOf(cc)
+	if sw == nil || sw.Tag == nil {
+		return cond
+	}
+	return &ast.BinaryExpr{X: sw.Tag, OpPos: cond.Pos(), Op: token.EQL, Y: cond}
+}
+
+var switchIndex = map[*ast.CaseClause]*ast.SwitchStmt{}
+var switchIndexed = map[*ast.FuncDecl]bool{}
+
+// switchOf finds the SwitchStmt a clause belongs to (indexed per enclosing
+// function declaration of the program being analysed).
+func switchOf(cc *ast.CaseClause) *ast.SwitchStmt {
+	if sw, ok := switchIndex[cc]; ok {
+		return sw
+	}
+	if Current == nil {
+		return nil
+	}
+	fd := Current.EnclosingDecl(cc.Pos())
+	if fd == nil || switchIndexed[fd] {
+		return nil
+	}
+	switchIndexed[fd] = true
+	ast.Inspect(fd, func(n ast.Node) bool {
+		if sw, ok := n.(*ast.SwitchStmt); ok {
+			for _, c := range sw.Body.List {
+				if c2, ok := c.(*ast.CaseClause); ok {
+					switchIndex[c2] = sw
+				}
+			}
+		}
+		return true
+	})
+	return switchIndex[cc]
 }
